@@ -218,3 +218,7 @@ def replay(path):
     if n == 0:
         print("replay: no violation of %s reproduced" % prop)
     return 1 if n else 0
+
+LEVEL = {}
+NOTE = {}
+TECH = {}
